@@ -499,6 +499,28 @@ def c04(tier, seed):
                             k += 1
     return out
 
+def c04p(tier, seed):
+    """funding settlement, partial close through the price band, second settlement, whole close"""
+    out = []
+    k = 0
+    day = 86400
+    for coll in ("cw20", "native"):
+        native = coll == "native"
+        for side in ("buy", "sell"):
+            for oracle in (700, 1300):
+                for plr in (25, 50):
+                    for m in (300, 800):
+                        ops = [block(15), opn("tr1", side, m, 1000, funds=m if native else 0),
+                               tx("feed", "append_price", "owner", dict(key="ETH", price=oracle, t=100015)),
+                               block(day + 1), tx("engine", "pay_funding", "stranger", dict(vamm="vamm1")),
+                               close("tr1"), query("engine", "position", dict(vamm="vamm1", trader="tr1")),
+                               block(day + 1), tx("engine", "pay_funding", "stranger", dict(vamm="vamm1")),
+                               close("tr1"), block(15), close("tr1"), block(15), close("tr1"),
+                               tx("engine", "withdraw_margin", "tr1", dict(vamm="vamm1", amount=1))]
+                        out.append(dict(id="c04p-%d" % k, deploy=dep(coll, vamms=[dict(period=day, fluct=2)], engine=dict(plr=plr)), ops=ops))
+                        k += 1
+    return out
+
 def c06f(tier, seed):
     """funding accrued in the trader's favour (or against), then oracle divergence >= 10 %, then Liquidate"""
     out = []
@@ -562,9 +584,9 @@ def for_property(pid, tier, seed):
     if pid == "C10":
         return [("c10alias", c10(tier, seed)), ("c08sweeps", c08(tier, seed)), ("c16orderings", c16(tier, seed)), ("c07vault", c07(tier, seed))]
     if pid in ("C12", "C04"):
-        return [("c04funding", c04(tier, seed)), ("c08sweeps", c08(tier, seed)), ("c16orderings", c16(tier, seed)), ("c07vault", c07(tier, seed))]
+        return [("c04partial", c04p(tier, seed)), ("c04funding", c04(tier, seed)), ("c08sweeps", c08(tier, seed)), ("c16orderings", c16(tier, seed)), ("c07vault", c07(tier, seed))]
     if pid == "C11":
-        return [("c04funding", c04(tier, seed)), ("c06funding", c06f(tier, seed))]
+        return [("c04partial", c04p(tier, seed)), ("c04funding", c04(tier, seed)), ("c06funding", c06f(tier, seed))]
     return []
 
 
